@@ -31,7 +31,10 @@ let int_of_ix = function I0 -> 0 | I1 -> 1 | I2 -> 2 | I3 -> 3
 let show_slots (c : cache) : string =
   "[" ^ String.concat "," (Stdlib.List.map (fun i ->
     let s = get_slot c i in
-    Printf.sprintf "%d:%s:%s:%s:%d" (int_of_ix i) (hex_of_n s.as_) (hex_of_n s.addr)
+    (* the address of an empty slot is dead state (ReadCacheProofs.readcache_failed_fill_not_cached:
+       no address hits it) and a failing callback may or may not have written it: printed as 0 *)
+    Printf.sprintf "%d:%s:%s:%s:%d" (int_of_ix i) (hex_of_n s.as_)
+      (if s.size = N0 then "0" else hex_of_n s.addr)
       (hex_of_n s.size) (match s.ptr with None -> 1 | Some _ -> 0)) (ring_list c.rg)) ^ "]"
 
 (* little-endian value of a byte list, as hex *)
@@ -117,7 +120,8 @@ let judge_slots (slots : pslot list) : string option =
   Stdlib.List.fold_left (fun acc p ->
     match acc with Some _ -> acc | None ->
     if p.ssz = N0 then None
-    else if p.pnull then Some (Printf.sprintf "slot %d has size != 0 and ptr = NULL outside a callback" p.idx)
+    else if p.pnull then Some (Printf.sprintf "failed fill left in the slot: slot %d claims %s:%s+%s but has no data (ptr = NULL) outside a callback"
+                               p.idx (hex_of_n p.sas) (hex_of_n p.sad) (hex_of_n p.ssz))
     else match region p.sas p.sad with
       | Some ((b', sz'), _) when b' = p.sad && sz' = p.ssz -> None
       | _ -> Some (Printf.sprintf "slot %d does not hold the region of its own address" p.idx)) None slots
